@@ -10,7 +10,7 @@
    The specification side (AST, printer, denotation) lives in harness/tokast.py; the oracle compares it with the
    implementation on exhaustive small and random deep ASTs on every run. *)
 From Coq Require Import List ZArith QArith Ascii String Bool.
-From GBS Require Import Model.PyStr Model.Num Model.Bond Model.Token Src.SrcBond Proofs.BondP Proofs.TokenP Model.DistFam Src.SrcDist Model.Stoch Proofs.TotalP Proofs.StochP Model.Mol Proofs.MolP Src.SrcDescr Proofs.DescrSrcP Src.SrcToken Proofs.TokenSrcP Src.SrcStochParse Proofs.StochParseSrcP Src.SrcMolParse Proofs.MolParseSrcP.
+From GBS Require Import Model.PyStr Model.Num Model.Bond Model.Token Src.SrcBond Proofs.BondP Proofs.TokenP Model.DistFam Src.SrcDist Model.Stoch Proofs.TotalP Proofs.StochP Model.Mol Proofs.MolP Src.SrcDescr Proofs.DescrSrcP Src.SrcToken Proofs.TokenSrcP Src.SrcStochParse Proofs.StochParseSrcP Src.SrcMolParse Proofs.MolParseSrcP Proofs.StrP Proofs.MixRoundTrip.
 Import ListNotations.
 Open Scope Z_scope.
 
@@ -87,6 +87,23 @@ Proof. vm_compute. reflexivity. Qed.
 (* a '$' descriptor following a branch-closing descriptor is a single bond, not a quadruple one *)
 Example C02_example_dollar_after_branch : summary "C([$])[$]" = Some [(lit "$", Some 0, OSingle); (lit "$", Some 0, OSingle)].
 Proof. vm_compute. reflexivity. Qed.
+
+(* the mixture specification: the mass (percentage) is the number written between the bars, in whatever float syntax (".5", "5.", "5e-1") --
+   for every text s without bar and percent sign.  On the pinned tree the rule stripped '.' together with the bars and read ".|.5|" as 5
+   (old_rule_misread in Proofs/MixRoundTrip.v; repaired, DESIGN 12.2). *)
+Theorem C02_mixture_mass_is_the_number_written : forall s, s <> [] -> nochar (ch "|") s = true -> nochar (ch "%") s = true ->
+  parse_mixture (lit ".|" ++ s ++ lit "|") =
+    match py_float s with
+    | None => OK {| mx_abs := None; mx_rel := None |}
+    | Some a => if num_lt0 a then Err ERuntime "invalid absolute mass" else OK {| mx_abs := Some a; mx_rel := None |}
+    end /\
+  parse_mixture (lit ".|" ++ s ++ lit "%|") =
+    match py_float s with
+    | None => Err EValue "could not convert string to float"
+    | Some r => if num_lt0 r || num_gt r 100 then Err ERuntime "invalid percent" else OK {| mx_abs := None; mx_rel := Some r |}
+    end.
+Proof. intros s H1 H2 H3. split; [exact (mixture_reads_what_is_written s H1 H2 H3)|exact (mixture_reads_the_percentage_written s H1 H2 H3)]. Qed.
+Print Assumptions C02_mixture_mass_is_the_number_written.
 
 (* bond characters: after a leading descriptor, before any other *)
 Example C02_example_orders :
